@@ -94,6 +94,10 @@ func genSpec(r *mrand.Rand, id string, msgEnc string, nparts, nemb, natt int) ge
 	if r.Intn(6) == 0 {
 		s.Charset = gen.Pick(r, []string{"ISO-8859-1", "US-ASCII", "UTF-8"})
 	}
+	if r.Intn(7) == 0 {
+		// a caller-defined boundary (never a line of the content: contents do not contain this token)
+		s.Boundary = gen.Pick(r, []string{"verif-Custom_Boundary.0123", "b", strings.Repeat("B", 66)})
+	}
 	for i := 0; i < nparts; i++ {
 		p := gen.PartSpec{Type: "text/plain"}
 		if i%2 == 1 || (i == 0 && r.Intn(4) == 0) {
